@@ -27,7 +27,7 @@ any number of accounts, candidates and names, any heights and amounts. Clause by
     C15-votebp-candidate-not-39-bytes): `vote_codec_breaks_on_38_bytes`
 * ranking = tallies under a strict total order ........... `less_strict_total_bp`, `less_strict_total_param`,
                                                           `ranking_is_permutation`, `ranking_sorted`,
-                                                          `ranking_independent_of_map_order`
+                                                          `ranking_independent_of_map_order`, `bp_ranking_strict`
     (full strength since repair 1c75543b of VoteList.Less; the pre-repair tie is `less_tie_before_repair`)
 * voting-power rank: memory = reload, total = Σ ......... `vpr_memory_eq_reload`, `vpr_total_eq_sum`,
                                                           `vpr_power_eq_votes`
@@ -37,14 +37,14 @@ any number of accounts, candidates and names, any heights and amounts. Clause by
 * names .................................................. `name_unique`, `name_create_rule`, `name_update_rule`,
                                                           `name_others_unchanged`
 * record codecs (support) ................................ `staking_codec`, `vote_codec`, `voteEx_codec`,
-                                                          `nameMap_codec`, `votingPower_codec`
+                                                          `nameMap_codec`, `votingPower_codec`, `voteList_codec`,
+                                                          `bucket_codec`
 
 Not carried by a theorem (see notes/C15.md): that the *persisted* parameter-vote ranking never mixes
 39-character and shorter candidate strings (then `Less` is not an order, and `Candidate[7:]` can panic);
 `vpr.lowest`; the two hard-coded account-id exceptions of addVpr/subVpr; uint64 wrap of `when + delay`.
 -/
-import Aergo.Lemmas.GovLess
-import Aergo.Lemmas.GovStep
+import Aergo.Lemmas.GovCand
 import Aergo.Lemmas.GovCodec
 
 namespace Aergo.Props.C15
@@ -58,6 +58,7 @@ structure GInv (s : St) : Prop where
   sys : InvSys s
   votes : InvVotes s
   vpr : InvVpr s
+  cand : InvCand s
 
 /-- A state with empty governance storage: nothing staked, no vote, no tally, an empty voting-power rank,
 nothing held by the staking account, distinct account ids. Balances, parameters and names are arbitrary. -/
@@ -98,7 +99,8 @@ example : Genesis { St.init 2 with accts := [([2, 1], [7]), ([3, 1], [9])], bal 
   ⟨rfl, rfl, by decide, rfl, rfl, rfl, rfl, by decide, idsDistinct_of_nodup (by decide)⟩
 
 theorem ginv_genesis {s : St} (h : Genesis s) : GInv s := by
-  refine ⟨⟨?_, ?_⟩, ⟨?_, ?_⟩, ⟨⟨?_, ?_, ?_⟩, ?_⟩, ⟨?_, ?_, ?_, ?_, h.idsDistinct, ?_⟩⟩
+  refine ⟨⟨?_, ?_⟩, ⟨?_, ?_⟩, ⟨⟨?_, ?_, ?_⟩, ?_⟩, ⟨?_, ?_, ?_, ?_, h.idsDistinct, ?_⟩,
+    ⟨by rw [h.tally]; intro e he; exact absurd he (by simp), by rw [h.votes]; intro e he; exact absurd he (by simp)⟩⟩
   · rw [h.stakes]; exact List.nodup_nil
   · rw [h.total, h.stakes]; rfl
   · rw [h.sysBal, h.total]
@@ -118,7 +120,8 @@ theorem ginv_genesis {s : St} (h : Genesis s) : GInv s := by
 `Op.guard` (nothing but staking credits/debits the staking account) and `Op.declared` (voters have an
 account id). -/
 theorem ginv_step {s : St} {o : Op} (h : GInv s) (hg : o.guard) (hd : o.declared s) : GInv (step s o).2 :=
-  ⟨invTotal_step h.total, invSys_step h.total h.sys hg, invVotes_step h.votes, invVpr_step h.vpr hd⟩
+  ⟨invTotal_step h.total, invSys_step h.total h.sys hg, invVotes_step h.votes, invVpr_step h.vpr hd,
+   invCand_step h.cand⟩
 
 /-- Operation sequences whose every operation satisfies the two guards (the account table is fixed). -/
 def Admissible (s : St) (ops : List Op) : Prop := ∀ o ∈ ops, o.guard ∧ o.declared s
@@ -267,6 +270,28 @@ theorem ranking_independent_of_map_order {P : Entry → Prop} (g : GoodOrder P) 
       (((rankSort_perm l₁).trans hp).trans (rankSort_perm l₂).symm) (rankSort_sorted g l₁ hP) (rankSort_sorted g l₂ hP₂)
   · exact sorted_unique g _ _ (fun e he => hP e (hr.subset he)) (hr.trans (rankSort_perm l₁).symm) hs
       (rankSort_sorted g l₁ hP)
+
+/-- In every reachable state the persisted block-producer ranking is *strictly* ordered — every entry is
+`Less` than every entry before it, no two are tied — and is the same whatever order the map iteration
+delivered the tallies in: all its candidates are 39 bytes long and pairwise different. -/
+theorem bp_ranking_strict {s : St} (h : GInv s) :
+    (rankOf s.tally .bp).Pairwise (fun x y => less y x = true) ∧
+    ∀ l : List Entry, l.Perm (entriesOf s.tally .bp) → rankSort l = rankOf s.tally .bp := by
+  obtain ⟨h39, hnd⟩ := bp_entries h.cand h.votes.tally.2.1
+  have hperm := rankSort_perm (entriesOf s.tally .bp)
+  have h39r : ∀ e ∈ rankOf s.tally .bp, Is39 e := fun e he => h39 e (hperm.subset he)
+  have hsorted : (rankOf s.tally .bp).Pairwise rankOk := rankSort_sorted good39 _ h39
+  have hndr : (rankOf s.tally .bp).Nodup := by
+    have : ((rankOf s.tally .bp).map (·.1)).Nodup := ((hperm.map (·.1)).nodup_iff).mpr hnd
+    exact List.Pairwise.of_map (·.1) (fun a b hab e => hab (by rw [e])) this
+  refine ⟨?_, fun l hl => ?_⟩
+  · have hne : (rankOf s.tally .bp).Pairwise (· ≠ ·) := hndr
+    refine (hsorted.and hne).imp_of_mem ?_
+    intro x y hx hy hxy
+    rcases good39.total x y (h39r x hx) (h39r y hy) hxy.2 with hl | hl
+    · have := hxy.1; rw [rankOk] at this; rw [this] at hl; exact absurd hl (by simp)
+    · exact hl
+  · exact (ranking_independent_of_map_order good39 l _ (fun e he => h39 e (hl.subset he)) hl).1
 
 /-- test: three producer entries, two iteration orders, one ranking (descending amount, then the tie-break). -/
 example :
@@ -550,5 +575,20 @@ theorem votingPower_codec (id addr pwr rest : Bytes) (hid : id.length = 32) (ha 
     (hp : pwr.length < 65536) :
     unmarshalVP (marshalVP id addr pwr ++ rest) = some (id, addr, pwr, 36 + addr.length + pwr.length) :=
   vp_roundtrip id addr pwr rest hid ha hp
+
+/-- Persisted vote list (the ranking) round trip: each element framed correctly (producer list: candidate
+39·k bytes and amount shorter than 39 bytes; parameter list: length-prefixed). -/
+theorem voteList_codec (ex : Bool) (l : List (Bytes × Bytes)) (hok : ∀ e ∈ l, ElemOk ex e) :
+    deserVoteList ex (serVoteList ex l) = some l := voteList_roundtrip ex l hok
+
+/-- test: a two-entry producer list satisfies the framing condition. -/
+example : ∀ e ∈ [((List.replicate 39 1 : Bytes), ([5, 6] : Bytes)), (List.replicate 39 2, [7])], ElemOk false e := by
+  intro e he
+  simp only [List.mem_cons, List.not_mem_nil, or_false] at he
+  rcases he with rfl | rfl <;> simp [ElemOk, elemSer, serVote]
+
+/-- Persisted voting-power bucket round trip (what `loadVpr` reads is what `vpr.apply` wrote). -/
+theorem bucket_codec (l : List (Bytes × Bytes × Bytes)) (hok : ∀ e ∈ l, VpOk e) :
+    unmarshalBucket (marshalBucket l) = some l := bucket_roundtrip l hok
 
 end Aergo.Props.C15
